@@ -19,6 +19,9 @@ pub enum Seg {
     /// random bytes with a 3..=5-byte repeat planted every `gap` bytes (sparse short matches)
     Sparse { n: u32, gap: u16, rep: u8, seed: u64 },
     Raw(Vec<u8>),
+    /// symbols with Fibonacci-like (geometric, ratio ~1.618) frequencies: forces Huffman codes up to the
+    /// 15-bit limit in the compressor (length-limiting code) 
+    Skewed { n: u32, syms: u8, seed: u64 },
 }
 
 #[derive(Clone, Debug, Serialize, Deserialize, PartialEq, Eq)]
@@ -97,6 +100,32 @@ impl Seg {
                 }
             }
             Seg::Raw(v) => out.extend_from_slice(v),
+            Seg::Skewed { n, syms, seed } => {
+                let mut s = *seed;
+                let k = (*syms).clamp(2, 40) as usize;
+                // cumulative weights w_i = phi^(k-1-i)
+                let mut w = Vec::with_capacity(k);
+                let mut x = 1.0f64;
+                for _ in 0..k {
+                    w.push(x);
+                    x *= 1.618_033_988_75;
+                }
+                let total: f64 = w.iter().sum();
+                let base = (splitmix64(&mut s) & 0xff) as u8;
+                for _ in 0..*n {
+                    let r = (splitmix64(&mut s) >> 11) as f64 / (1u64 << 53) as f64 * total;
+                    let mut acc = 0.0;
+                    let mut sym = k - 1;
+                    for (i, wi) in w.iter().enumerate() {
+                        acc += wi;
+                        if r < acc {
+                            sym = i;
+                            break;
+                        }
+                    }
+                    out.push(base.wrapping_add((sym as u8).wrapping_mul(7)));
+                }
+            }
         }
     }
 }
@@ -146,6 +175,7 @@ pub fn seg(max: u32) -> BoxedStrategy<Seg> {
         2 => (size(max), any::<u64>()).prop_map(|(n, seed)| Seg::Text { n, seed }),
         1 => (size(max), 8u16..600, 3u8..=6, any::<u64>()).prop_map(|(n, gap, rep, seed)| Seg::Sparse { n, gap, rep, seed }),
         1 => proptest::collection::vec(any::<u8>(), 0..12).prop_map(Seg::Raw),
+        2 => (size(max), 8u8..=40, any::<u64>()).prop_map(|(n, syms, seed)| Seg::Skewed { n, syms, seed }),
     ]
     .boxed()
 }
